@@ -64,10 +64,47 @@ pub struct LargeEnc {
     pub force_exp: bool,
 }
 
+/// What `check_cnfs` judges: one framework with compact ids 0..n (labels 1..=n), its attacks and adjacency
+struct CnfIn<'a> {
+    n: usize,
+    att: &'a [(usize, usize)],
+    adj: &'a crate::checks::metamorphic::Adj,
+    af: &'a AAFramework<usize>,
+    skip_exp: bool,
+    probes: &'a [u64],
+    /// arguments whose membership is flipped in the CNF's own model to obtain neighbouring probe sets
+    focus: Vec<usize>,
+    /// fewer probe sets per CNF (frameworks above 2^16 arguments: every probe costs n assumptions)
+    light: bool,
+}
+
+/// A framework of more than 2^16 arguments handed to the encoders directly (no solver renumbers it): a motif of
+/// a few arguments whose ids sit just below and just above multiples of 2^16, all other arguments isolated.
+#[derive(Clone, Debug, PartialEq, Eq, Hash, serde::Serialize, serde::Deserialize)]
+pub struct HugeEnc {
+    /// node j of the motif has id floor * 65536 + off (duplicates are merged)
+    pub nodes: Vec<(u8, u16)>,
+    /// attacks between motif nodes (indices mapped monotonically onto the nodes)
+    pub att: Vec<(u16, u16)>,
+    /// isolated arguments after the highest motif id
+    pub tail: u16,
+    pub via_iccma: bool,
+    pub probes: Vec<u64>,
+}
+
 #[derive(Clone, Debug, serde::Serialize, serde::Deserialize)]
 pub enum EncAny {
     Small(EncCase),
     Large(LargeEnc),
+    Huge(HugeEnc),
+}
+
+pub fn huge_strategy() -> BoxedStrategy<HugeEnc> {
+    use proptest::collection::vec;
+    let off = prop_oneof![3 => 0u16..6, 2 => 65530u16..=65535, 1 => any::<u16>()];
+    (vec((0u8..=2, off), 4..=10), vec((any::<u16>(), any::<u16>()), 4..=26), 0u16..40, any::<bool>(), vec(any::<u64>(), 2..=3))
+        .prop_map(|(nodes, att, tail, via_iccma, probes)| HugeEnc { nodes, att, tail, via_iccma, probes })
+        .boxed()
 }
 
 fn large_graph(c: &LargeEnc) -> crate::checks::metamorphic::BigGraph {
@@ -196,8 +233,27 @@ impl Encodings {
         if c.hub_attackers >= 30 && n >= 70 {
             rec.class(&format!("large-with-optional-hub-attackers-exp-{}", if exp_clauses > EXP_LIMIT { "skipped" } else { "encoded" }));
         }
+        let att_us: Vec<(usize, usize)> = g.att.iter().map(|(a, b)| (*a as usize, *b as usize)).collect();
+        self.check_cnfs(&CnfIn { n, att: &att_us, adj: &adj, af: &af, skip_exp: exp_clauses > EXP_LIMIT && !c.force_exp, probes: &c.probes, focus: (0..n.min(40)).collect(), light: false }, rec)?;
+        if rec.nontrivial(c) {
+            rec.sample(|| json!({"large_framework_arguments": n, "attacks": g.att.len(), "via_iccma_reader": c.via_iccma, "probed_sets_per_cnf": 2 + n.min(40) + 1 + c.probes.len()}));
+        }
+        Ok(())
+    }
+
+    /// The CNF of every encoder for one framework of any size, judged polynomially and by SAT (section C10, large cases)
+    fn check_cnfs(&self, inp: &CnfIn, rec: &mut Rec) -> CheckResult {
+        let (n, adj, af) = (inp.n, inp.adj, inp.af);
+        struct G {
+            att: Vec<(usize, usize)>,
+        }
+        let g = G { att: inp.att.to_vec() };
+        struct C<'a> {
+            probes: &'a [u64],
+        }
+        let c = C { probes: inp.probes };
         for enc in ENCODERS {
-            if enc == Enc::ExpCo && exp_clauses > EXP_LIMIT && !c.force_exp {
+            if enc == Enc::ExpCo && inp.skip_exp {
                 continue;
             }
             for with_range in [false, true] {
@@ -255,7 +311,8 @@ impl Encodings {
                     return Err(Failure::new(format!("{}/arg-literals-collide-or-not-positive", sig), format!("{:?}", lits)));
                 }
                 let range_lit = |i: usize| -> isize { (e.first_range_var(n) + af.argument_set().get_argument(&(i + 1)).unwrap().id()) as isize };
-                if with_range && (0..n).any(|i| lits.contains(&range_lit(i)) || range_lit(i) as usize > nv) {
+                let lit_set: std::collections::HashSet<isize> = lits.iter().copied().collect();
+                if with_range && (0..n).any(|i| lit_set.contains(&range_lit(i)) || range_lit(i) as usize > nv) {
                     return Err(Failure::new(format!("{}/range-variable-collides-or-above-n_vars", sig), ""));
                 }
                 let in_family = |s: &[bool]| -> bool {
@@ -305,7 +362,19 @@ impl Encodings {
                     }
                     let mut violations: Vec<Literal> = vec![];
                     let base = base_of(enc);
-                    for a in 0..n {
+                    // light mode: a violation variable per isolated argument makes CaDiCaL learn 10^5 units one by
+                    // one, each after re-deciding 10^5 free variables (minutes); the hunt is exact on the motif, its
+                    // id neighbours and 64 spread-out isolated arguments
+                    let hunted: Vec<usize> = if inp.light {
+                        let mut v: Vec<usize> = inp.focus.iter().flat_map(|i| [i.saturating_sub(1), *i, (*i + 1).min(n - 1)]).collect();
+                        v.extend((0..64).map(|k| k * n / 64));
+                        v.sort();
+                        v.dedup();
+                        v
+                    } else {
+                        (0..n).collect()
+                    };
+                    for a in hunted {
                         // a member that is attacked by the set
                         let v = fresh();
                         hunt.add_clause(vec![Literal::from(-v), Literal::from(lits[a])]);
@@ -360,7 +429,7 @@ impl Encodings {
                         }
                         return Err(Failure::new(
                             format!("{}/{}", sig, if in_family(&s0) { "range-variable-true-outside-range-in-some-model".to_string() } else { format!("cnf-has-model-outside-the-{}-family", base) }),
-                            format!("found by exact search: model projection {:?}; n {} attacks {:?}", (0..n).filter(|i| s0[*i]).collect::<Vec<_>>(), n, g.att),
+                            format!("found by exact search: model projection {}{:?}; n {} attacks {:?}", if inp.light { "on the motif " } else { "" }, (0..n).filter(|i| s0[*i] && (!inp.light || inp.focus.contains(i))).collect::<Vec<_>>(), n, g.att),
                         ));
                     }
                 }
@@ -374,7 +443,7 @@ impl Encodings {
                             format!("model projection {:?}; attacks {:?}", (0..n).filter(|i| s0[*i]).collect::<Vec<_>>(), g.att),
                         ));
                     }
-                    for i in 0..n.min(40) {
+                    for &i in &inp.focus {
                         let mut s1 = s0.clone();
                         s1[i] = !s1[i];
                         sets.push(s1);
@@ -387,7 +456,7 @@ impl Encodings {
                 // chooser and blocking clauses: each must be a model of the CNF (checked below with the others)
                 {
                     let seed = c.probes.first().copied().unwrap_or(1) ^ (n as u64) << 20;
-                    let mut r = satwrap::choosy(seed, (seed % 3) as u8, 48)();
+                    let mut r: Box<dyn SatSolver> = if inp.light { sat::default_solver() } else { satwrap::choosy(seed, (seed % 3) as u8, 48)() };
                     let x = |i: usize| (i + 1) as isize;
                     let p = |i: usize| (n + 1 + i) as isize;
                     let attackers: Vec<Vec<usize>> = {
@@ -422,7 +491,7 @@ impl Encodings {
                             r.add_clause(vec![Literal::from(x(a)), Literal::from(p(a))]);
                         }
                     }
-                    for _ in 0..12 {
+                    for _ in 0..(if inp.light { 5 } else { 12 }) {
                         match r.solve() {
                             SolvingResult::Satisfiable(m) => {
                                 let member: Vec<bool> = (0..n).map(|i| m.value_of(i + 1) == Some(true)).collect();
@@ -437,7 +506,7 @@ impl Encodings {
                         }
                     }
                 }
-                for (k, seed) in c.probes.iter().enumerate() {
+                for (k, seed) in c.probes.iter().enumerate().take(if inp.light { 1 } else { usize::MAX }) {
                     // subsets of varying density derived from the generated words
                     let mut x = *seed | 1;
                     let dens = 1 + k % 4;
@@ -448,11 +517,48 @@ impl Encodings {
                         (x % 8) < dens as u64
                     }).collect());
                 }
+                // light mode (frameworks above 2^16 arguments, all arguments outside `focus` isolated): an assumption
+                // per argument makes every probe cost a second, so only the focus and 64 spread-out isolated
+                // arguments are assumed; isolated arguments are put in every probe set (they belong to every
+                // complete / stable set and never hurt the other families), and the model's projection is compared
+                // on the assumed arguments and judged as a whole by the polynomial membership test
+                // (tens of thousands of assumptions are as many decision levels for CaDiCaL: in light mode a probe is a
+                // fresh solver with the CNF and the probe set as unit clauses)
+                let assumed: Vec<usize> = (0..n).collect();
+                let fresh_with = |units: &[Literal]| {
+                    let mut t = sat::default_solver();
+                    t.reserve(nv);
+                    for cl in &clauses {
+                        t.add_clause(cl.iter().map(|l| Literal::from(*l)).collect());
+                    }
+                    for u in units {
+                        t.add_clause(vec![*u]);
+                    }
+                    t
+                };
+                if inp.light {
+                    let mut is_focus = vec![false; n];
+                    inp.focus.iter().for_each(|i| is_focus[*i] = true);
+                    for s in sets.iter_mut() {
+                        for i in 0..n {
+                            if !is_focus[i] {
+                                s[i] = true;
+                            }
+                        }
+                    }
+                }
                 for s in &sets {
-                    let assumptions: Vec<Literal> = (0..n).map(|i| Literal::from(if s[i] { lits[i] } else { -lits[i] })).collect();
+                    let assumptions: Vec<Literal> = assumed.iter().map(|&i| Literal::from(if s[i] { lits[i] } else { -lits[i] })).collect();
                     rec.count("disagreements_checked", 1);
                     let want = in_family(s);
-                    let got = match probe.solve_under_assumptions(&assumptions) {
+                    let mut tmp;
+                    let res = if inp.light {
+                        tmp = fresh_with(&assumptions);
+                        tmp.solve()
+                    } else {
+                        probe.solve_under_assumptions(&assumptions)
+                    };
+                    let got = match res {
                         SolvingResult::Satisfiable(m) => {
                             let back: Vec<usize> = e.assignment_to_extension(&m, &af).iter().map(|a| *a.label() - 1).collect();
                             let mut bs = vec![false; n];
@@ -462,8 +568,11 @@ impl Encodings {
                                 }
                                 bs[*i] = true;
                             }
-                            if &bs != s {
-                                return Err(Failure::new(format!("{}/assignment_to_extension-differs-from-model", sig), format!("{:?}", back)));
+                            if assumed.iter().any(|&i| bs[i] != s[i]) {
+                                return Err(Failure::new(format!("{}/assignment_to_extension-differs-from-model", sig), format!("{:?}", back.iter().take(200).collect::<Vec<_>>())));
+                            }
+                            if inp.light && !in_family(&bs) {
+                                return Err(Failure::new(format!("{}/cnf-has-model-outside-the-{}-family", sig, base_of(enc)), format!("model projection on the motif {:?}; n {} attacks {:?}", inp.focus.iter().filter(|i| bs[**i]).collect::<Vec<_>>(), n, g.att)));
                             }
                             true
                         }
@@ -481,18 +590,32 @@ impl Encodings {
                         let att_by = adj.attacked_by(s);
                         let range: Vec<bool> = (0..n).map(|i| s[i] || att_by[i]).collect();
                         let mut a2 = assumptions.clone();
-                        for i in 0..n {
+                        for &i in &assumed {
                             a2.push(Literal::from(if range[i] { range_lit(i) } else { -range_lit(i) }));
                         }
                         rec.count("disagreements_checked", 1);
-                        if !matches!(probe.solve_under_assumptions(&a2), SolvingResult::Satisfiable(_)) {
+                        let mut tmp2;
+                        let res2 = if inp.light {
+                            tmp2 = fresh_with(&a2);
+                            tmp2.solve()
+                        } else {
+                            probe.solve_under_assumptions(&a2)
+                        };
+                        if !matches!(res2, SolvingResult::Satisfiable(_)) {
                             return Err(Failure::new(format!("{}/no-model-with-range-variables-equal-to-range", sig), format!("set {:?}; attacks {:?}", (0..n).filter(|i| s[*i]).collect::<Vec<_>>(), g.att)));
                         }
                         if let Some(i) = (0..n).find(|i| !range[*i]) {
                             let mut a3 = assumptions.clone();
                             a3.push(Literal::from(range_lit(i)));
                             rec.count("disagreements_checked", 1);
-                            if !matches!(probe.solve_under_assumptions(&a3), SolvingResult::Unsatisfiable) {
+                            let mut tmp3;
+                            let res3 = if inp.light {
+                                tmp3 = fresh_with(&a3);
+                                tmp3.solve()
+                            } else {
+                                probe.solve_under_assumptions(&a3)
+                            };
+                            if !matches!(res3, SolvingResult::Unsatisfiable) {
                                 return Err(Failure::new(format!("{}/range-variable-true-outside-range", sig), format!("argument {}; attacks {:?}", i, g.att)));
                             }
                         }
@@ -500,8 +623,58 @@ impl Encodings {
                 }
             }
         }
-        if rec.nontrivial(c) {
-            rec.sample(|| json!({"large_framework_arguments": n, "attacks": g.att.len(), "via_iccma_reader": c.via_iccma, "probed_sets_per_cnf": 2 + n.min(40) + 1 + c.probes.len()}));
+        Ok(())
+    }
+
+    fn run_huge(&self, c: &HugeEnc, rec: &mut Rec) -> CheckResult {
+        use crustabri::io::{Iccma23Reader, InstanceReader};
+        let mut ids: Vec<usize> = c.nodes.iter().map(|(f, o)| *f as usize * 65536 + *o as usize).collect();
+        ids.sort();
+        ids.dedup();
+        // at least one argument above 2^16
+        if *ids.last().unwrap() < 65536 {
+            let l = ids.len() - 1;
+            ids[l] += 65536;
+        }
+        let n = ids.last().unwrap() + 1 + c.tail as usize;
+        let mut att: Vec<(usize, usize)> = c.att.iter().map(|(a, b)| (ids[crate::gen::idx(*a, ids.len())], ids[crate::gen::idx(*b, ids.len())])).collect();
+        if !c.via_iccma {
+            att.sort();
+            att.dedup();
+        }
+        let mut adj = crate::checks::metamorphic::Adj { n, out: vec![vec![]; n], inc: vec![vec![]; n] };
+        for (a, b) in &att {
+            if !adj.out[*a].contains(b) {
+                adj.out[*a].push(*b);
+                adj.inc[*b].push(*a);
+            }
+        }
+        let af: AAFramework<usize> = if c.via_iccma {
+            let mut t = format!("p af {}\n", n);
+            for (a, b) in &att {
+                t.push_str(&format!("{} {}\n", a + 1, b + 1));
+            }
+            Iccma23Reader::default().read(&mut t.as_bytes()).map_err(|e| Failure::new("C10/huge/reader-rejected-generated-file", e.to_string()))?
+        } else {
+            let labels: Vec<usize> = (1..=n).collect();
+            let mut af = AAFramework::new_with_argument_set(crustabri::aa::ArgumentSet::new_with_labels(&labels));
+            for (a, b) in &att {
+                af.new_attack(&(*a + 1), &(*b + 1)).unwrap();
+            }
+            af
+        };
+        // size of the exp complete encoding on the motif (every isolated argument costs one clause)
+        let indeg = |x: usize| att.iter().filter(|(_, b)| *b == x).count().max(1);
+        let exp_clauses = ids.iter().map(|x| att.iter().filter(|(_, b)| b == x).fold(1usize, |p, (a, _)| p.saturating_mul(indeg(*a)))).fold(0usize, |a, b| a.saturating_add(b));
+        rec.class(&format!("huge-n-above-{}x2^16", n / 65536));
+        let two_sided = att.iter().any(|(a, b)| a > b && a - b >= 65000) && att.iter().any(|(a, b)| a < b);
+        if two_sided {
+            rec.class("huge-with-an-attack-from-above-2^16-downwards-and-an-upward-attack");
+        }
+        self.check_cnfs(&CnfIn { n, att: &att, adj: &adj, af: &af, skip_exp: exp_clauses > EXP_LIMIT, probes: &c.probes, focus: ids.clone(), light: true }, rec)
+            .map_err(|f| Failure { signature: f.signature.replace("C10/large/", "C10/huge/"), ..f })?;
+        if two_sided && rec.nontrivial(c) {
+            rec.sample(|| json!({"huge_framework_arguments": n, "motif_ids": ids, "attacks": att}));
         }
         Ok(())
     }
@@ -795,6 +968,7 @@ impl Prop for Encodings {
             EncAny::Small(e) => e,
             // shrinking a framework of hundreds of arguments costs minutes: reported as found
             EncAny::Large(l) => return self.run_large(l, rec).map_err(|f| if l.n > 100 { f.unshrinkable() } else { f }),
+            EncAny::Huge(h) => return self.run_huge(h, rec).map_err(|f| f.unshrinkable()),
         };
         let case = &ecase.gc;
         rec.class(&format!("pres-{}", case.pres.kind()));
@@ -807,6 +981,53 @@ impl Prop for Encodings {
             Built::S(af, labels) => self.run_generic(&af, &labels, ecase, rec),
             Built::C(af, labels) => self.run_generic(&af, &labels, ecase, rec),
         }
+    }
+    fn extra_phase(&self, tier: Tier, seed: u64, rec: &mut Rec) -> Result<(), (EncAny, Failure)> {
+        // Frameworks of more than 2^16 arguments at the encoder level (section 6: 16-bit keys, masks and casts in
+        // an encoder). Two fixed ones with ids exactly 2^16 and 2^17 apart attacking in both directions, then
+        // generated ones (deterministic samples of `huge_strategy` for the seed).
+        let twin = |via_iccma: bool| HugeEnc {
+            nodes: vec![(0, 2), (0, 3), (0, 5), (1, 5), (1, 2), (2, 3), (1, 3)],
+            // sorted ids: 2 3 5 65538 65539 65541 131075 -> indices 0..=6 (idx maps k*(len)>>16)
+            att: [(5usize, 0usize), (1, 2), (2, 1), (0, 3), (6, 1), (0, 1), (4, 6), (3, 5), (5, 3)].iter().map(|(a, b)| (((a << 16) / 7 + 1) as u16, ((b << 16) / 7 + 1) as u16)).collect(),
+            tail: 7,
+            via_iccma,
+            probes: vec![0x9E37_79B9_7F4A_7C15, 3],
+        };
+        let strat = huge_strategy();
+        let k_gen = tier.pick(6, 60) as u64;
+        let cases: Vec<HugeEnc> = [twin(false), twin(true)].into_iter().chain((0..k_gen).map(|k| crate::engine::sample_strategy(&strat, seed, "C10-huge", k))).collect();
+        // the cases are independent: run them on threads, report the first failure in case order
+        let results: Vec<(Rec, CheckResult)> = std::thread::scope(|sc| {
+            let hs: Vec<_> = cases
+                .iter()
+                .map(|c| {
+                    sc.spawn(move || {
+                        let mut r = Rec::default();
+                        let out = match std::panic::catch_unwind(std::panic::AssertUnwindSafe(|| self.run_huge(c, &mut r))) {
+                            Ok(o) => o,
+                            Err(p) => match p.downcast_ref::<crate::engine::Inconclusive>() {
+                                Some(i) => {
+                                    r.inconclusive(&i.0);
+                                    Ok(())
+                                }
+                                None => Err(Failure::new("harness/uncaught-panic", crate::engine::panic_message(&p))),
+                            },
+                        };
+                        r.eval();
+                        (r, out)
+                    })
+                })
+                .collect();
+            hs.into_iter().map(|h| h.join().unwrap()).collect()
+        });
+        for ((r, out), c) in results.into_iter().zip(cases) {
+            rec.merge(r);
+            if let Err(f) = out {
+                return Err((EncAny::Huge(c), f));
+            }
+        }
+        Ok(())
     }
     fn finish_coverage(&self, cov: &mut Map<String, Value>, rec: &Rec) {
         cov.insert("programs".into(), json!(rec.counters.get("programs").copied().unwrap_or(0)));
